@@ -470,6 +470,9 @@ func (x *c35Exec) exec(ops []string, o *vu.Out) {
 				var parts []string
 				err := st.readSettings(func(ty, v int64) error {
 					parts = append(parts, fmt.Sprintf("%d=%d", ty, v))
+					if ty >= 2 && ty <= 5 {
+						o.Fail("", fmt.Sprintf("readSettings accepted reserved HTTP/2 setting %#x (RFC 9114 7.2.4.1)", ty))
+					}
 					return nil
 				})
 				s := "-"
